@@ -332,6 +332,10 @@ func classifyCrash(log string) string {
 		return "fatal"
 	case strings.Contains(log, "panic:"):
 		return "panic"
+	case strings.Contains(log, "ThreadSanitizer"):
+		return "tsan-runtime"
+	case strings.Contains(log, "signal: killed"), strings.Contains(log, "out of memory"):
+		return "killed"
 	}
 	return "died"
 }
@@ -497,9 +501,9 @@ func orchestrate(prop, tier string, seed uint64) int {
 					return
 				}
 				if open != "" {
-					log := tailFile(logPath, 1<<20)
+					log := tailFile(logPath, 8<<20)
 					kind := classifyCrash(log)
-					r := Result{Case: open, Verdict: "violation", Sig: "crash|" + kind + "|" + crashFrames(log), Msg: "worker process died while running this case (" + kind + ")", Detail: map[string]any{"case": caseByID[open], "log_tail": tailStr(log, 6000)}}
+					r := Result{Case: open, Verdict: "violation", Sig: "crash|" + kind + "|" + crashFrames(log), Msg: "worker process died while running this case (" + kind + ")", Detail: map[string]any{"case": caseByID[open], "log_head_of_crash": crashHead(log, 8000), "log_tail": tailStr(log, 3000)}}
 					mu.Lock()
 					all = append(all, r)
 					mu.Unlock()
@@ -516,6 +520,29 @@ func orchestrate(prop, tier string, seed uint64) int {
 	}
 	wg.Wait()
 	return report(prop, tier, seed, cases, all, known, time.Since(start))
+}
+
+// crashHead returns the part of a worker log where the crash report starts (the cause is at the top of a Go crash dump).
+func crashHead(log string, n int) string {
+	first := -1
+	for _, mk := range []string{"WARNING: DATA RACE", "fatal error:", "panic:", "SIGSEGV", "SIGABRT", "SIGBUS", "unexpected signal", "runtime: ", "ThreadSanitizer", "FATAL", "WATCHDOG"} {
+		if i := strings.Index(log, mk); i >= 0 && (first < 0 || i < first) {
+			first = i
+		}
+	}
+	if first < 0 {
+		return tailStr(log, n)
+	}
+	if first > 300 {
+		first -= 300
+	} else {
+		first = 0
+	}
+	end := first + n
+	if end > len(log) {
+		end = len(log)
+	}
+	return log[first:end]
 }
 
 func tailStr(s string, n int) string {
